@@ -44,6 +44,65 @@ MAX_CELLS = 10       # cells per (online, target) pair that go to Coq (the oracl
 TOL_LOSS, TOL_W = 1e-4, 1e-6
 
 
+def ids(case):
+    """agent ids in the order the algorithm was given them (unsorted variant: b_0 before a_0)"""
+    return list(reversed(AGENT_IDS)) if case.get("ids_unsorted") else list(AGENT_IDS)
+
+
+def ma_act_dim(case, a):
+    return {"a_0": 3, "b_0": 2}[a] if case.get("ma_discrete") else MA_ACT[a]
+
+
+def noise_args(case):
+    """(noise_clip, policy_noise) the learn call uses: explicit, or the defaults of DDPG/TD3.learn"""
+    return (0.5, 0.2) if case.get("default_noise") else (NOISE_CLIP, POLICY_NOISE)
+
+
+def obs_space_of(case):
+    k = case.get("obs", "vec")
+    if k == "image":
+        return spaces.Box(0, 255, (3, 8, 8), np.float32)
+    if k == "dict":
+        return spaces.Dict({"a": spaces.Box(-4, 4, (3,), np.float32), "b": spaces.Box(-4, 4, (2,), np.float32)})
+    if k == "disc":
+        return spaces.Discrete(5)
+    return spaces.Box(-4, 4, (OBS_DIM,), np.float32)
+
+
+def gen_obs(case, B, gen):
+    k = case.get("obs", "vec")
+    if k == "image":
+        return torch.randint(0, 256, (B, 3, 8, 8), generator=gen).to(torch.float32)
+    if k == "dict":
+        return TensorDict({"a": torch.randn(B, 3, generator=gen), "b": torch.randn(B, 2, generator=gen)}, batch_size=[B])
+    if k == "disc":
+        return torch.randint(0, 5, (B, 1), generator=gen).to(torch.float32)
+    return torch.randn(B, OBS_DIM, generator=gen)
+
+
+def perturb_obs(case, o, dones, gen):
+    """a different observation on the rows where dones = 1, the same one elsewhere"""
+    k = case.get("obs", "vec")
+    B = dones.shape[0]
+    if k == "image":
+        d = dones.reshape(B, 1, 1, 1)
+        return o * (1 - d) + d * ((o + 1 + torch.randint(0, 200, (B, 3, 8, 8), generator=gen).to(torch.float32)) % 256)
+    if k == "dict":
+        return TensorDict({kk: o[kk] + dones * (1.0 + torch.rand(B, o[kk].shape[1], generator=gen)) for kk in o.keys()}, batch_size=[B])
+    if k == "disc":
+        return (o + dones * (1 + torch.randint(0, 4, (B, 1), generator=gen).to(torch.float32))) % 5
+    return o + dones * (1.0 + torch.rand(B, OBS_DIM, generator=gen))
+
+
+def hp_config_of(case):
+    if "mut_hp" not in case.get("pre", []):
+        return None
+    from agilerl.algorithms.core.registry import HyperparameterConfig, RLParameter
+    if case["algo"] in SINGLE_DISCRETE or case["algo"] == "Rainbow":
+        return HyperparameterConfig(lr=RLParameter(min=2e-3, max=5e-2))
+    return HyperparameterConfig(lr_actor=RLParameter(min=2e-3, max=5e-2), lr_critic=RLParameter(min=2e-3, max=5e-2))
+
+
 def lists(t):
     return t.detach().cpu().to(torch.float64).tolist()
 
@@ -53,7 +112,12 @@ def f32(x):
 
 
 # ---------------------------------------------------------------------------------- building agents
-def net_config(rainbow=False, partial=False):
+def net_config(rainbow=False, partial=False, obs="vec"):
+    if obs == "image":
+        return {"latent_dim": 8, "encoder_config": {"channel_size": [4], "kernel_size": [3], "stride_size": [1]},
+                "head_config": {"hidden_size": [16 if rainbow else 8]}}
+    if obs == "dict":
+        return {"latent_dim": 8, "head_config": {"hidden_size": [16 if rainbow else 8]}}
     if partial:          # a user configuration that names only the encoder (everything else defaulted by the library)
         return {"encoder_config": {"hidden_size": [8]}}
     enc = {"hidden_size": [8], "min_mlp_nodes": 4, "max_mlp_nodes": 32}
@@ -70,17 +134,19 @@ def build(case):
     np.random.seed(case["seed"] % (2 ** 31))
     random.seed(case["seed"])
     g, tau = case["gamma"], case["tau"]
-    obs_space = spaces.Box(-4, 4, (OBS_DIM,), np.float32)
+    obs_space = obs_space_of(case)
+    ok = case.get("obs", "vec")
+    hpc = hp_config_of(case)
     if algo in SINGLE_DISCRETE:
         from agilerl.algorithms.dqn import DQN
         from agilerl.algorithms.cqn import CQN
         cls = DQN if algo in ("DQN", "DDQN") else CQN
-        return cls(obs_space, spaces.Discrete(N_ACT), net_config=net_config(partial=case.get("partial_cfg", False)), gamma=g, tau=tau,
+        return cls(obs_space, spaces.Discrete(N_ACT), net_config=net_config(partial=case.get("partial_cfg", False), obs=ok), gamma=g, tau=tau, hp_config=hpc,
                    double=algo in ("DDQN", "CDQN"), batch_size=case["B"], lr=case.get("lr", 1e-2))
     if algo == "Rainbow":
         from agilerl.algorithms.dqn_rainbow import RainbowDQN
         rb = case["rb"]
-        return RainbowDQN(obs_space, spaces.Discrete(N_ACT), net_config=net_config(True, partial=case.get("partial_cfg", False)), gamma=g, tau=tau,
+        return RainbowDQN(obs_space, spaces.Discrete(N_ACT), net_config=net_config(True, partial=case.get("partial_cfg", False), obs=ok), gamma=g, tau=tau, hp_config=hpc,
                           batch_size=case["B"], lr=case.get("lr", 1e-2), num_atoms=rb["atoms"], v_min=rb["vmin"],
                           v_max=rb["vmax"], n_step=rb["n_step"], combined_reward=rb["combined"])
     if algo in SINGLE_AC:
@@ -89,14 +155,17 @@ def build(case):
         from agilerl.algorithms.ddpg import DDPG
         from agilerl.algorithms.td3 import TD3
         cls = DDPG if algo == "DDPG" else TD3
-        return cls(obs_space, spaces.Box(lo, hi, (ACT_DIM,), np.float32), net_config=net_config(partial=case.get("partial_cfg", False)), gamma=g, tau=tau,
+        return cls(obs_space, spaces.Box(lo, hi, (ACT_DIM,), np.float32), net_config=net_config(partial=case.get("partial_cfg", False), obs=ok), gamma=g, tau=tau, hp_config=hpc,
                    policy_freq=case["pf"], share_encoders=case.get("share", False), batch_size=case["B"],
                    lr_actor=case.get("lr", 1e-2), lr_critic=case.get("lr", 1e-2))
     from agilerl.algorithms.maddpg import MADDPG
     from agilerl.algorithms.matd3 import MATD3
-    osp = [spaces.Box(-4, 4, (MA_OBS[a],), np.float32) for a in AGENT_IDS]
-    asp = [spaces.Box(-1, 1, (MA_ACT[a],), np.float32) for a in AGENT_IDS]
-    kw = dict(agent_ids=list(AGENT_IDS), net_config=net_config(partial=case.get("partial_cfg", False)), gamma=g, tau=tau, batch_size=case["B"],
+    osp = [spaces.Box(-4, 4, (MA_OBS[a],), np.float32) for a in ids(case)]
+    if case.get("ma_discrete"):
+        asp = [spaces.Discrete(ma_act_dim(case, a)) for a in ids(case)]
+    else:
+        asp = [spaces.Box(-1, 1, (MA_ACT[a],), np.float32) for a in ids(case)]
+    kw = dict(agent_ids=ids(case), hp_config=hpc, net_config=net_config(partial=case.get("partial_cfg", False)), gamma=g, tau=tau, batch_size=case["B"],
               lr_actor=case.get("lr", 1e-2), lr_critic=case.get("lr", 1e-2))
     if algo == "MATD3":
         return MATD3(osp, asp, policy_freq=case["pf"], **kw)
@@ -164,7 +233,10 @@ def make_batch(case, salt=0, B=None):
     if algo in MULTI:
         st = {a: torch.randn(B, MA_OBS[a], generator=gen) for a in AGENT_IDS}
         ns = {a: torch.randn(B, MA_OBS[a], generator=gen) for a in AGENT_IDS}
-        ac = {a: torch.rand(B, MA_ACT[a], generator=gen) * 2 - 1 for a in AGENT_IDS}
+        if case.get("ma_discrete"):      # what the buffer holds for Discrete action spaces: the actors' (relaxed one-hot) outputs
+            ac = {a: torch.softmax(3 * torch.randn(B, ma_act_dim(case, a), generator=gen), dim=1) for a in AGENT_IDS}
+        else:
+            ac = {a: torch.rand(B, MA_ACT[a], generator=gen) * 2 - 1 for a in AGENT_IDS}
         rw = {a: (rewards + i).clone() for i, a in enumerate(AGENT_IDS)}
         dn = {}
         for i, a in enumerate(AGENT_IDS):
@@ -174,14 +246,21 @@ def make_batch(case, salt=0, B=None):
             dn[a] = d
         alld = torch.stack([dn[a] for a in AGENT_IDS]).min(0)[0]      # rows where every agent is done
         ns2 = {a: ns[a] + alld * (1.0 + torch.rand(B, MA_OBS[a], generator=gen)) for a in AGENT_IDS}
-        return (st, ac, rw, ns, dn), (st, ac, rw, ns2, dn)
-    obs = torch.randn(B, OBS_DIM, generator=gen)
-    nxt = torch.randn(B, OBS_DIM, generator=gen)
+        # key order of the dictionaries the caller hands over: canonical, or the reverse of the algorithm's agent_ids
+        order = ids(case)
+        if case.get("key_order") == "reversed":
+            order = list(reversed(order))
+        ro = lambda d: {a: d[a] for a in order}
+        return tuple(ro(d) for d in (st, ac, rw, ns, dn)), tuple(ro(d) for d in (st, ac, rw, ns2, dn))
+    obs = gen_obs(case, B, gen)
+    nxt = gen_obs(case, B, gen)
     if algo in SINGLE_AC:
         act = torch.rand(B, ACT_DIM, generator=gen) * 2 - 1
     else:
         act = torch.randint(0, N_ACT, (B, 1), generator=gen).to(torch.float32)     # the buffer stores float32 columns
-    nxt2 = nxt + dones * (1.0 + torch.rand(B, OBS_DIM, generator=gen))
+        if case.get("act1d"):
+            act = act.reshape(B)                                                     # a caller-built batch with a flat action vector
+    nxt2 = perturb_obs(case, nxt, dones, gen)
     mk = lambda n: TensorDict({"obs": obs.clone(), "action": act.clone(), "reward": rewards.clone(),
                                "next_obs": n.clone(), "done": dones.clone()}, batch_size=[B])
     b1, b2 = mk(nxt), mk(nxt2)
@@ -200,8 +279,8 @@ def make_batch(case, salt=0, B=None):
             # the fused n-step transitions: own rewards / next observations / done flags
             nd = torch.tensor(rb["ndones"][:B] + [0] * max(0, B - len(rb["ndones"])), dtype=torch.float32).reshape(B, 1)
             nr = dyadic(gen, (B, 1))
-            nn_ = torch.randn(B, OBS_DIM, generator=gen)
-            nn2 = nn_ + nd * (1.0 + torch.rand(B, OBS_DIM, generator=gen))
+            nn_ = gen_obs(case, B, gen)
+            nn2 = perturb_obs(case, nn_, nd, gen)
             mkn = lambda n: TensorDict({"obs": obs.clone(), "action": act.clone(), "reward": nr.clone(),
                                         "next_obs": n.clone(), "done": nd.clone()}, batch_size=[B])
             return (b1, mkn(nn_)), (b2, mkn(nn2))
@@ -224,13 +303,18 @@ def call_learn(agent, case, batch):
         out = agent.learn(b[0], n_experiences=b[1], per=case["rb"]["per"])
         pri = out[2]
         return {"loss": float(out[0]), "pri": None if pri is None else [float(x) for x in np.asarray(pri).reshape(-1)]}
+    if case.get("form") == "tuple":       # CQN / TD3 also accept the five tensors as a tuple
+        b = (b["obs"], b["action"], b["reward"], b["next_obs"], b["done"])
     if algo in SINGLE_AC:
-        out = agent.learn(b, noise_clip=NOISE_CLIP, policy_noise=POLICY_NOISE)
+        if case.get("default_noise"):
+            out = agent.learn(b)
+        else:
+            out = agent.learn(b, noise_clip=NOISE_CLIP, policy_noise=POLICY_NOISE)
         return {"loss": float(out[1]), "actor_loss": None if out[0] is None else float(out[0])}
     if algo in MULTI:
         out = agent.learn(b)
-        return {"loss": [float(out[a][1]) for a in AGENT_IDS],
-                "actor_loss": [None if out[a][0] is None else float(out[a][0]) for a in AGENT_IDS]}
+        return {"loss": [float(out[a][1]) for a in ids(case)],
+                "actor_loss": [None if out[a][0] is None else float(out[a][0]) for a in ids(case)]}
     return {"loss": float(agent.learn(b))}
 
 
@@ -257,7 +341,7 @@ def tables(agent, case, batch, seed):
                     continue
                 obs = agent.preprocess_observation(b["obs"])
                 nxt = agent.preprocess_observation(b["next_obs"])
-                B = obs.shape[0]
+                B = b["reward"].shape[0]
                 na = agent.actor(nxt).argmax(1)
                 p = agent.actor_target(nxt, q=False)[range(B), na]
                 logp = agent.actor(obs, q=False, log=True)[range(B), b["action"].reshape(-1).long()]
@@ -275,10 +359,11 @@ def tables(agent, case, batch, seed):
             qs = torch.cat([c(obs, act) for c in crit], dim=1)
             pi = agent.actor_target(nxt)
             torch.manual_seed(seed)                       # the draw learn() will make under the same seed
-            noise = torch.empty_like(act).normal_(0, POLICY_NOISE)
+            clip_, std_ = noise_args(case)
+            noise = torch.empty_like(act).normal_(0, std_)
             lo = torch.tensor(case["lo"], dtype=torch.float32)
             hi = torch.tensor(case["hi"], dtype=torch.float32)
-            an = torch.max(torch.min(pi + noise.clamp(-NOISE_CLIP, NOISE_CLIP), hi), lo)
+            an = torch.max(torch.min(pi + noise.clamp(-clip_, clip_), hi), lo)
             qns = torch.cat([c(nxt, an) for c in critt], dim=1)
             return {"qs": lists(qs), "qns": lists(qns), "pi": lists(pi), "noise": lists(noise), "an": lists(an),
                     "r": lists(batch["reward"].reshape(-1)), "d": lists(batch["done"].reshape(-1))}
@@ -286,12 +371,15 @@ def tables(agent, case, batch, seed):
         st, ac, rw, ns, dn = batch
         st = agent.preprocess_observation(st)
         ns = agent.preprocess_observation(ns)
-        sst = torch.cat([st[a] for a in AGENT_IDS], dim=1)
-        sns = torch.cat([ns[a] for a in AGENT_IDS], dim=1)
-        sac = torch.cat([ac[a] for a in AGENT_IDS], dim=1)
-        nac = torch.cat([agent.actor_targets[i](ns[a]) for i, a in enumerate(AGENT_IDS)], dim=1)
+        # every stacked input is in the order of the algorithm's agent_ids, whatever the key order of the dictionaries
+        AID = ids(case)
+        sst = torch.cat([st[a] for a in AID], dim=1)
+        sns = torch.cat([ns[a] for a in AID], dim=1)
+        sac = torch.cat([ac[a] for a in AID], dim=1)
+        torch.manual_seed(seed)          # Discrete action spaces: the target actors' Gumbel-softmax draws learn() will make
+        nac = torch.cat([agent.actor_targets[i](ns[a]) for i, a in enumerate(AID)], dim=1)
         per_agent = []
-        for i, a in enumerate(AGENT_IDS):
+        for i, a in enumerate(AID):
             if algo == "MADDPG":
                 crit, critt = [agent.critics[i]], [agent.critic_targets[i]]
             else:
@@ -423,7 +511,57 @@ class C08(vlib.Driver):
                     if "mut_arch" in case["pre"] or "mut_act" in case["pre"]:
                         case["pre"] = ["learn", "mut_param"]
                 cases.append(case)
+        cases += self.audit_cases(tier, rng)
         return cases
+
+    # ---------- boundary / audit cases: every guard, default argument and input form of the anchored code that the
+    # seeded stream above never reaches, and objects that are NOT freshly built (chains of clone / mutation / reload)
+    AUDIT = {
+        "DQN": [{"act1d": True}, {"obs": "image", "pre": ["mut_arch"]}, {"obs": "dict", "pre": ["clone", "mut_arch", "clone"]},
+                {"obs": "disc"}, {"pre": ["mut_arch", "ckpt"]}, {"pre": ["learn", "mut_hp"]}],
+        "DDQN": [{"obs": "dict"}, {"act1d": True, "pre": ["mut_act", "load"]}, {"obs": "image"}],
+        "CQN": [{"form": "tuple"}, {"obs": "image", "form": "tuple"}, {"pre": ["mut_arch", "mut_arch"]}, {"obs": "dict", "pre": ["learn", "mut_hp"]}],
+        "CDQN": [{"form": "tuple", "obs": "dict"}, {"obs": "disc", "pre": ["mut_arch", "ckpt"]}],
+        "Rainbow": [{"obs": "image"}, {"obs": "dict", "per": True}, {"pre": ["mut_param", "ckpt"]}, {"pre": ["learn", "mut_hp"], "per": True},
+                    {"obs": "disc", "pre": ["clone", "mut_param", "clone"]}],
+        "DDPG": [{"default_noise": True}, {"obs": "dict"}, {"obs": "image", "share": True}, {"pre": ["clone", "mut_arch", "clone"], "share": True},
+                 {"pre": ["mut_arch", "ckpt"]}, {"pre": ["learn", "mut_hp"]}],
+        "TD3": [{"form": "tuple"}, {"default_noise": True, "form": "tuple"}, {"obs": "dict", "pre": ["mut_arch", "load"]},
+                {"pre": ["learn", "mut_hp"], "share": True}, {"obs": "image", "pre": ["clone", "mut_act", "clone"]}],
+        "MADDPG": [{"key_order": "reversed"}, {"ids_unsorted": True}, {"ids_unsorted": True, "key_order": "reversed", "pre": ["learn", "clone"]},
+                   {"ma_discrete": True}, {"ma_discrete": True, "key_order": "reversed"}, {"pre": ["mut_arch", "ckpt"]}, {"pre": ["learn", "mut_hp"]}],
+        "MATD3": [{"key_order": "reversed"}, {"ids_unsorted": True}, {"ids_unsorted": True, "key_order": "reversed", "pre": ["learn", "clone"]},
+                  {"ma_discrete": True}, {"ma_discrete": True, "key_order": "reversed"}, {"pre": ["clone", "mut_arch", "clone"]}, {"pre": ["learn", "mut_hp"]}],
+    }
+
+    def audit_cases(self, tier, rng):
+        out = []
+        reps = 1 if tier == "quick" else 4
+        for algo, variants in self.AUDIT.items():
+            for vi, v in enumerate(variants):
+                for r in range(reps):
+                    B = 4 if r == 0 else rng.choice([2, 3, 5, 8])
+                    dones = [1, 0] + [rng.randint(0, 1) for _ in range(B - 2)]
+                    rng.shuffle(dones)
+                    case = {"algo": algo, "seed": rng.randrange(1, 10 ** 6), "B": B, "gamma": [0.99, 0.5, 1.0][(vi + r) % 3],
+                            "tau": [0.25, 1e-3, 1.0][(vi + r) % 3], "pf": 1, "dones": dones,
+                            "rewards": [rng.randint(-8, 8) / 4 for _ in range(B)], "steps": 2 + (vi + r) % 2, "pre": [], "lr": 1e-2,
+                            "partial_cfg": False, "audit": True}
+                    if algo in SINGLE_AC or algo == "MATD3":
+                        case["pf"] = 1 + (vi + r) % 3
+                    if algo in SINGLE_AC:
+                        case["share"] = False
+                        case["lo"], case["hi"] = [-0.25, -0.125], [1.0, 0.25]
+                    if algo in MULTI:
+                        case["ma_split"] = bool((vi + r) % 2)
+                    if algo == "Rainbow":
+                        case["rb"] = {"atoms": 5, "vmin": -2.0, "vmax": 2.0, "n_step": 3, "nstep_batch": bool((vi + r) % 2), "per": False,
+                                      "combined": bool(vi % 2), "ndones": [rng.randint(0, 1) for _ in range(B)], "wshape": "col"}
+                        if v.get("per"):
+                            case["rb"]["per"] = True
+                    case.update({k: x for k, x in v.items() if k != "per"})
+                    out.append(case)
+        return out
 
     # ---------- pre-history
     def apply_pre(self, agent, case, op, k):
@@ -463,7 +601,7 @@ class C08(vlib.Driver):
         from agilerl.hpo.mutation import Mutations
         kind = op.split("_")[1]
         mut = Mutations(no_mutation=0, architecture=1 if kind == "arch" else 0, new_layer_prob=0.3,
-                        parameters=1 if kind == "param" else 0, activation=1 if kind == "act" else 0, rl_hp=0,
+                        parameters=1 if kind == "param" else 0, activation=1 if kind == "act" else 0, rl_hp=1 if kind == "hp" else 0,
                         rand_seed=case["seed"])
         return mut.mutation([agent])[0]
 
@@ -499,13 +637,14 @@ class C08(vlib.Driver):
                     rec["tables2"] = tables(A, case, batch2, seed_k)
                 pf_k = case["pf"] if algo in SINGLE_AC + ("MATD3",) else 1
                 updating = (obs["counter0"] + k + 1) % pf_k == 0
-                pre_nets = c08_grad.copies(A, algo, updating)
+                pre_nets = c08_grad.copies(A, algo)
                 torch.manual_seed(seed_k)
-                rec["out"] = call_learn(A, case, batch)
+                with c08_grad.StepRecorder() as recd:
+                    rec["out"] = call_learn(A, case, batch)
                 post = snapshot(A, algo)
                 try:      # gradient left behind by learn() vs gradient of the defined loss on the pre-step copy
-                    cmpg = c08_grad.compare(c08_grad.reference_grads(A, case, batch, rec["tables"], pre_nets, AGENT_IDS),
-                                            c08_grad.impl_grads(A, algo, updating))
+                    g_impl = c08_grad.impl_grads(A, algo, recd.grads)
+                    cmpg = c08_grad.compare(c08_grad.reference_grads(A, case, batch, rec["tables"], pre_nets, ids(case)), g_impl)
                     rec["grad"] = [[n_, cos_, ratio_,
                                     float(np.abs(post[n_][0] - prev[n_][0]).max()) if n_ in post and len(post[n_][0]) == len(prev[n_][0]) else None]
                                    for n_, cos_, ratio_ in cmpg]
@@ -531,13 +670,23 @@ class C08(vlib.Driver):
                 rec["soft"] = soft
                 if k == 0:
                     torch.manual_seed(seed_k)
-                    out2 = call_learn(A2, case, batch2)
+                    with c08_grad.StepRecorder() as recd2:
+                        out2 = call_learn(A2, case, batch2)
                     p2 = snapshot(A2, algo)
                     wdiff = 0.0
                     for n in names:
                         for a, b in ((post[n][0], p2[n][0]), (post[n][1], p2[n][1])):
                             wdiff = max(wdiff, float(np.abs(a - b).max()) if len(a) == len(b) and len(a) else (0.0 if len(a) == len(b) else 1.0))
-                    obs["twin"] = {"out": out2, "wdiff": wdiff}
+                    gdiff = 0.0        # relative difference of the value networks' gradients at the optimiser step
+                    try:
+                        g2 = c08_grad.impl_grads(A2, algo, recd2.grads)
+                        for n_, ga in g_impl.items():
+                            gb = g2.get(n_)
+                            if gb is not None and len(gb) == len(ga) and np.linalg.norm(ga) > 1e-7:
+                                gdiff = max(gdiff, float(np.linalg.norm(ga - gb) / np.linalg.norm(ga)))
+                    except Exception:
+                        gdiff = None
+                    obs["twin"] = {"out": out2, "wdiff": wdiff, "gdiff": gdiff}
                 prev = post
                 obs["steps"].append(rec)
         except Exception as e:  # learn() / clone() / load raised: reported by the oracle with this very case
@@ -610,7 +759,7 @@ class C08(vlib.Driver):
             elif algo in SINGLE_AC:
                 nc = 1 if algo == "DDPG" else 2
                 terms.append(f"check_ac {g} {nc}%nat {arows(t)} {arows(t2)} {coq_Q(out['loss'])}")
-                terms.append(f"check_next_actions {coq_Q(NOISE_CLIP)} {Ql(case['lo'])} {Ql(case['hi'])} {QLL(t['pi'])} {QLL(t['noise'])} {QLL(t['an'])}")
+                terms.append(f"check_next_actions {coq_Q(noise_args(case)[0])} {Ql(case['lo'])} {Ql(case['hi'])} {QLL(t['pi'])} {QLL(t['noise'])} {QLL(t['an'])}")
             else:
                 nc = 1 if algo == "MADDPG" else 2
                 for i, ta in enumerate(t["agents"]):
@@ -657,6 +806,8 @@ class C08(vlib.Driver):
                 outer = float(np.mean(elems) * np.mean(rec["tables"]["w"]))
                 if relerr(got, ref) > TOL_LOSS and relerr(got, outer) <= TOL_LOSS:
                     sig = "loss:Rainbow:per-weights-column-broadcast"
+            if algo in MULTI and case.get("key_order") == "reversed":
+                sig = f"loss:{algo}:action-key-order"
             for i, (a, b) in enumerate(pairs_l):
                 if not (math.isfinite(a) and relerr(a, b) <= TOL_LOSS):
                     out.append(Violation("loss", sig,
@@ -669,7 +820,7 @@ class C08(vlib.Driver):
                     break
             # (1b) what learn() called backward() on is that loss: gradient direction (and size, where no clipping applies)
             clipped = algo in ("CQN", "CDQN", "Rainbow")
-            for name, cos, ratio, moved in rec.get("grad", []):
+            for name, cos, ratio, moved in (rec.get("grad", []) if not out else []):
                 if cos is None:
                     continue            # different parameter list: not comparable
                 if ratio == 0.0:
@@ -717,6 +868,11 @@ class C08(vlib.Driver):
                 out.append(Violation("done-mask", f"done-mask:{algo}",
                                      f"two identical agents under equal seeds: learn(batch) -> loss {l1}, learn(batch with next_obs changed only "
                                      f"where done=1) -> loss {l2} (dones={case['dones']})"))
+            elif tw.get("gdiff") is not None and tw["gdiff"] > (1e-4 if algo == "Rainbow" else 0.0):
+                out.append(Violation("done-mask", f"done-mask-gradient:{algo}",
+                                     f"two identical agents under equal seeds: the gradients of the value networks at the optimiser step differ by "
+                                     f"{tw['gdiff']:.3g} (relative) between learn(batch) and learn(batch with next_obs changed only where done=1) "
+                                     f"(dones={case['dones']})"))
             elif tol_w is not None and tw["wdiff"] > tol_w:
                 out.append(Violation("done-mask", f"done-mask-weights:{algo}",
                                      f"two identical agents under equal seeds end with weights differing by {tw['wdiff']:.3g} after learn(batch) / "
@@ -768,7 +924,8 @@ class C08(vlib.Driver):
         return out
 
     def key(self, case):
-        return super().key({k: case.get(k) for k in ("algo", "dones", "gamma", "tau", "pf", "steps", "pre", "rb", "share", "ma_split")})
+        return super().key({k: case.get(k) for k in ("algo", "dones", "gamma", "tau", "pf", "steps", "pre", "rb", "share", "ma_split", "obs", "form", "act1d",
+                                                               "default_noise", "key_order", "ids_unsorted", "ma_discrete")})
 
     def nontrivial(self, case, obs):
         d = case["dones"][:case["B"]]
@@ -779,6 +936,12 @@ class C08(vlib.Driver):
         labs = [f"algo={case['algo']}", f"gamma={case['gamma']}", f"tau={case['tau']}", f"pf={case['pf']}",
                 f"steps={case['steps']}", f"B={case['B']}", "pre=" + "+".join(case["pre"] or ["none"]), "cfg=" + ("partial" if case.get("partial_cfg") else "tiny"),
                 "dones=" + ("mixed" if (0 in d and 1 in d) else ("all1" if 1 in d else "all0"))]
+        labs.append("obs=" + case.get("obs", "vec"))
+        for flag in ("form", "act1d", "default_noise", "key_order", "ids_unsorted", "ma_discrete"):
+            if case.get(flag):
+                labs.append(f"{flag}={case[flag]}")
+        if len(case["pre"]) >= 3 or (case["pre"] and case["pre"][0] != "learn"):
+            labs.append("pre-chain-or-no-learn-before-op")
         if case["algo"] == "Rainbow":
             rb = case["rb"]
             labs.append(f"rainbow={('per-' + rb.get('wshape', 'col')) if rb['per'] else 'uniform'}/{'nstep' if rb['nstep_batch'] else '1step'}/{'combined' if rb['combined'] else 'single'}")
@@ -789,8 +952,9 @@ class C08(vlib.Driver):
                 for i, d in enumerate(t["d"]):
                     if d == 0:
                         for p_, n_, a_ in zip(t["pi"][i], t["noise"][i], t["an"][i]):
-                            clip = clip or abs(n_) > NOISE_CLIP
-                            box = box or abs(a_ - (p_ + max(-NOISE_CLIP, min(NOISE_CLIP, n_)))) > 1e-6
+                            nc_ = noise_args(case)[0]
+                            clip = clip or abs(n_) > nc_
+                            box = box or abs(a_ - (p_ + max(-nc_, min(nc_, n_)))) > 1e-6
             labs.append(f"live-row:noise-clip={'active' if clip else 'inactive'}")
             labs.append(f"live-row:box-clamp={'active' if box else 'inactive'}")
         if obs.get("steps"):
